@@ -21,6 +21,19 @@ func init() {
 	register(&Prop{ID: "C14", Draw: drawC02, Check: checkC14})
 }
 
+// lrOnce reports whether the grammar is free of left recursion or the reference
+// evaluation invoked every left-recursive rule at most once per offset (otherwise the
+// leader's memo entry legitimately replays value and end without re-running blocks, and
+// traces/errors/state are only comparable between real parsers).
+func lrOnce(ref *refpeg.Result) bool {
+	for _, n := range ref.Stats.LRCalls {
+		if n > 1 {
+			return false
+		}
+	}
+	return true
+}
+
 // codeIDs lists the code block ids of a grammar by kind.
 func codeIDs(g *gspec.Grammar) (all []int) {
 	for _, r := range g.Rules {
@@ -250,7 +263,9 @@ func checkC05(x *X, c *Case, strict bool) *Outcome {
 		}
 		resp, ctx := runReal(x, pk, c, safetyBudget(ref))
 		o.Evals++
-		if d, _ := compareEvents(x, ref, ctx.Events, "state", strict); d != "" {
+		if !lrOnce(ref) {
+			o.Tags = append(o.Tags, "lr_reinvoked_outcome_only")
+		} else if d, _ := compareEvents(x, ref, ctx.Events, "state", strict); d != "" {
 			o.Viol = viol(pk, c, "state_snapshot", d, traceText(ref.Events), traceText(ctx.Events))
 			return o
 		}
@@ -268,7 +283,9 @@ func checkC05(x *X, c *Case, strict bool) *Outcome {
 
 func drawC11(t *rapid.T, x *X) *Case {
 	c := drawBase(t, x, 40)
-	c.Plan = drawPlan(t, x.G.Spec, 4, false, true)
+	// in left-recursive grammars the n-th invocation of a block is not a stable notion (the
+	// seed-growing loop re-evaluates alternatives): faults fire on every invocation there
+	c.Plan = drawPlan(t, x.G.Spec, 4, x.G.Spec.Profile == "leftrec", true)
 	c.Opts.NoRecover = gspec.U(t, 4, "norecover") == 0
 	return c
 }
@@ -368,7 +385,9 @@ func checkC11(x *X, c *Case, strict bool) *Outcome {
 			}
 			continue
 		}
-		if d := compareErrors(ref, resp, ctx); d != "" {
+		if !lrOnce(ref) {
+			o.Tags = append(o.Tags, "lr_reinvoked_outcome_only")
+		} else if d := compareErrors(ref, resp, ctx); d != "" {
 			o.Viol = viol(pk, c, "error_list", d, describeRef(ref), describeResp(resp))
 			return o
 		}
